@@ -488,6 +488,36 @@ func (a *A) ruleGroupInstancesComplete() {
 		a.Bad(construct, add.Pos(), "Add has no loop over the prototypes that gives the group an instance of every aggregate: an aggregate that receives no usable input in a group (all NULL) is absent from the group's result row instead of being reported as 0 / NULL")
 		return
 	}
+	// the creating loop may be skipped when the group already has as many instances as there are
+	// prototypes (`if len(groupAggs) != len(ga.aggregators) { for ... }`): instances are only ever
+	// created from the prototypes, so equal sizes mean none is missing. The test then stands for the loop.
+	anchor := loopHead
+	for d := loopHead.Idom(); d != nil; d = d.Idom() {
+		iff, isIf := d.Instrs[len(d.Instrs)-1].(*ssa.If)
+		if !isIf {
+			continue
+		}
+		bo, isB := iff.Cond.(*ssa.BinOp)
+		if !isB {
+			break
+		}
+		lenOf := func(v ssa.Value) ssa.Value {
+			if c, ok := v.(*ssa.Call); ok {
+				if cc, ok := isBuiltinCall(c, "len"); ok {
+					return cc.Args[0]
+				}
+			}
+			return nil
+		}
+		x, y := lenOf(bo.X), lenOf(bo.Y)
+		if x != nil && y != nil && (bo.Op == token.NEQ || bo.Op == token.EQL || bo.Op == token.LSS || bo.Op == token.GTR) {
+			tx, ty := TermOf(x, nil), TermOf(y, nil)
+			if (tx.Kind == "field" && tx.Field == protos) != (ty.Kind == "field" && ty.Field == protos) {
+				anchor = d
+			}
+		}
+		break
+	}
 	ok := true
 	nFeed := 0
 	allInstrs(add, func(in ssa.Instruction) {
@@ -496,7 +526,7 @@ func (a *A) ruleGroupInstancesComplete() {
 			return
 		}
 		nFeed++
-		if !loopHead.Dominates(c.Block()) {
+		if !anchor.Dominates(c.Block()) {
 			ok = false
 		}
 	})
